@@ -44,11 +44,22 @@ func (sig Signature) Serialize() []byte {
 	return sig.value.Marshal()
 }
 
+// SIGNATURE_LENGTH is the length of a serialized signature (one G1 point: two 32-byte coordinates).
+const SIGNATURE_LENGTH = 64
+
+// Deserialize accepts exactly the bytes Serialize writes for a non-nil signature. On any error
+// (wrong length, coordinates that are not a curve point) the signature is left nil.
 func (sig *Signature) Deserialize(b []byte) error {
-	if len(b) == 0 {
-		return fmt.Errorf("signature Deserialized failed.")
+	if len(b) != SIGNATURE_LENGTH {
+		sig.value = bn_curve.G1{}
+		return fmt.Errorf("signature Deserialized failed: length %d, want %d", len(b), SIGNATURE_LENGTH)
 	}
-	sig.value.Unmarshal(b)
+	var value bn_curve.G1
+	if _, err := value.Unmarshal(b); err != nil {
+		sig.value = bn_curve.G1{}
+		return err
+	}
+	sig.value = value
 	return nil
 }
 
@@ -62,12 +73,7 @@ func (sig *Signature) SetHexString(s string) error {
 	}
 	buf := s[len(PREFIX):]
 
-	if sig.value.IsNil() {
-		sig.value = bn_curve.G1{}
-	}
-
-	sig.value.Unmarshal(common.Hex2Bytes(buf))
-	return nil
+	return sig.Deserialize(common.Hex2Bytes(buf))
 }
 
 func (sig *Signature) IsNil() bool {
